@@ -3,7 +3,7 @@
    IsInTimeRange (27-43), FindNthWeekday (56-105), ProcessTimeRangeRaw / ProcessTimeRanges (429-475)
    and the day loop of ScriptFunc (585-647).
 
-   Local time enters through two parameters (inputs of the model, never constants inside it):
+   Local time enters through two functions (inputs of the model, never constants inside it):
      off : Z -> Z   the UTC offset (seconds) in force at a UTC instant      (localtime_r)
      mk  : Z -> Z   local seconds-since-epoch "as if UTC" -> UTC instant      (mktime, tm_isdst = -1)
    A struct tm whose fields were modified and that is then normalised by mktime is represented by the
@@ -13,8 +13,19 @@
 
    String parsing is glue: the model works on the parsed form below, the generator prints both the
    string (for the code) and the parsed form (for the model).  No proofs in this file. *)
-From Icv Require Import Base.Tac Tp.TpModel.
+From Icv Require Import Base.Tac Tp.TpModel Facts.Facts_c08.
 Local Open Scope Z_scope.
+
+(* ---------------- the two forms of the source this model follows (regenerated facts, Facts/Facts_c08.v) ----------------
+   [rnd]  the day number IsInTimeRange uses for strides: false = (tsref - tsbegin) / 86400 (pinned tree, finding
+          stride-dst), true = (tsref - tsbegin + 43200) / 86400 (repo_patches/C08-stride-dst.diff);
+   [lb]   the day loop of ScriptFunc: false = starts at the first local day of the region and keeps every segment (pinned
+          tree, finding wrap-first-day), true = starts one local day earlier and keeps the segments that end after the
+          region's begin (repo_patches/C08-wrap-first-day.diff).
+   Every function below that depends on the form takes it as an argument; the instance the check runs is the one of the
+   source as it is now. *)
+Definition tp_src_stride_round : bool := match f_tp_stride_round with Some b => b | None => false end.
+Definition tp_src_lookback : bool := match f_tp_loop_lookback with Some b => b | None => false end.
 
 (* ---------------- civil calendar (proleptic Gregorian), days since 1970-01-01 ---------------- *)
 
@@ -92,13 +103,13 @@ Definition tp_local_day (t : Z) : Z := tp_local t / 86400.
 Definition tp_midnight (d : Z) : Z := tp_mk (d * 86400).
 
 (* IsInDayDefinition = ParseTimeRange + IsInTimeRange, reference = local midnight of day r *)
-Definition tp_in_day_def (dd : tp_dayrange) (r : Z) : bool :=
+Definition tp_in_day_def (rnd : bool) (dd : tp_dayrange) (r : Z) : bool :=
   let tsbegin := tp_midnight (tp_range_begin_day dd r) in
   let tsend := tp_midnight (tp_range_end_day dd r) in
   let tsref := tp_midnight r in
   if (tsref <? tsbegin) || (tsend <=? tsref) then false
   else
-    let daynumber := (tsref - tsbegin) / 86400 in
+    let daynumber := (if rnd then tsref - tsbegin + 43200 else tsref - tsbegin) / 86400 in
     if (1 <? tp_dr_stride dd) && (0 <? daynumber mod tp_dr_stride dd) then false else true.
 
 (* ProcessTimeRangeRaw + ProcessTimeRange + the emptiness test of ProcessTimeRanges; a time range is
@@ -113,22 +124,29 @@ Definition tp_time_range_seg (r : Z) (tr : Z * Z) : list tp_seg :=
 Definition tp_time_ranges_segs (r : Z) (trs : list (Z * Z)) : list tp_seg :=
   flat_map (tp_time_range_seg r) trs.
 
-Definition tp_day_segs (ranges : list (tp_dayrange * list (Z * Z))) (r : Z) : list tp_seg :=
-  flat_map (fun kv => if tp_in_day_def (fst kv) r then tp_time_ranges_segs r (snd kv) else []) ranges.
+Definition tp_day_segs (rnd : bool) (ranges : list (tp_dayrange * list (Z * Z))) (r : Z) : list tp_seg :=
+  flat_map (fun kv => if tp_in_day_def rnd (fst kv) r then tp_time_ranges_segs r (snd kv) else []) ranges.
 
-(* the day loop: for (reference = midnight of begin's day; mktime(reference) <= end; next day) *)
-Fixpoint tp_day_loop (fuel : nat) (ranges : list (tp_dayrange * list (Z * Z))) (r e : Z) : list tp_seg :=
+(* form [lb]: "if (segment->Get("end") > begin) segments->Add(segment)"; the pinned form keeps everything *)
+Definition tp_keep (lb : bool) (b : Z) (sg : tp_seg) : bool := if lb then b <? snd sg else true.
+
+(* the day loop: for (reference = midnight of the first day; mktime(reference) <= end; next day) *)
+Fixpoint tp_day_loop (rnd lb : bool) (fuel : nat) (ranges : list (tp_dayrange * list (Z * Z))) (b r e : Z) : list tp_seg :=
   match fuel with
   | O => []
-  | S f => if tp_midnight r <=? e then tp_day_segs ranges r ++ tp_day_loop f ranges (r + 1) e else []
+  | S f => if tp_midnight r <=? e
+           then filter (tp_keep lb b) (tp_day_segs rnd ranges r) ++ tp_day_loop rnd lb f ranges b (r + 1) e else []
   end.
 
 (* an upper bound on the number of iterations (a local day is longer than an hour); +5 covers the partial first and
    last day and an offset change of less than 48 h between begin and end *)
 Definition tp_loop_fuel (b e : Z) : nat := Z.to_nat ((e - b) / 3600 + 5).
 
-Definition tp_script_func (ranges : list (tp_dayrange * list (Z * Z))) (b e : Z) : list tp_seg :=
-  tp_day_loop (tp_loop_fuel b e) ranges (tp_local_day b) e.
+(* the first day of the loop: begin's local day, in form [lb] the day before (tm_mday--, normalised by mktime) *)
+Definition tp_first_day (lb : bool) (b : Z) : Z := if lb then tp_local_day b - 1 else tp_local_day b.
+
+Definition tp_script_func (rnd lb : bool) (ranges : list (tp_dayrange * list (Z * Z))) (b e : Z) : list tp_seg :=
+  tp_day_loop rnd lb (tp_loop_fuel b e) ranges b (tp_first_day lb b) e.
 
 (* ---------------- what the property says (calendar semantics, local wall-clock time) -------------- *)
 
@@ -138,7 +156,7 @@ Definition tp_day_matches (dd : tp_dayrange) (r : Z) : bool :=
   (bd <=? r) && (r <? tp_range_end_day dd r) &&
   ((tp_dr_stride dd <=? 1) || ((r - bd) mod tp_dr_stride dd =? 0)).
 
-(* ... the same with the stride counted the way IsInTimeRange does (seconds / 86400) *)
+(* ... the same with the stride counted the way the pinned IsInTimeRange does (seconds / 86400) *)
 Definition tp_day_matches_secs (dd : tp_dayrange) (r : Z) : bool :=
   let bd := tp_range_begin_day dd r in
   (bd <=? r) && (r <? tp_range_end_day dd r) &&
